@@ -108,7 +108,7 @@ Qed.
 Lemma splitarray_spec nper var :
   1 <= nper -> exists cs, splitarray nper var = Ok cs /\ splitarray_ok nper var cs.
 Proof.
-  intro Hn. unfold splitarray. destruct (nper <=? 0) eqn:E; [lia|].
+  intro Hn. unfold splitarray. destruct (nper =? 0) eqn:E; [lia|].
   eexists; split; [reflexivity|].
   set (size := Z.of_nat (length var)).
   set (nchunks := size / nper + (if size mod nper =? 0 then 0 else 1)).
